@@ -148,10 +148,10 @@ func runTrieDB(k *kernel.K) {
 	s.cache = k.Bool(1, 2, "knob-cache")
 	s.errOnMissing = k.Bool(1, 3, "knob-missing-key-is-ErrNotFound")
 	s.useShimCommit = k.Bool(1, 3, "knob-commit-directly")
-	s.liveAtBranch = knob(k, 1, 8, "live-get-at-valueless-branch")
-	s.longKeys = knob(k, 1, 5, "keys-of-32-bytes-or-more")
-	s.val32 = knob(k, 1, 5, "v1-values-of-exactly-32-bytes")
-	s.delPrefix = knob(k, 1, 5, "delete-absent-key-that-prefixes-stored-keys")
+	s.liveAtBranch = knob(k, 1, 2, "live-get-at-valueless-branch")
+	s.longKeys = knob(k, 1, 2, "keys-of-32-bytes-or-more")
+	s.val32 = knob(k, 3, 4, "v1-values-of-exactly-32-bytes")
+	s.delPrefix = knob(k, 3, 4, "delete-absent-key-that-prefixes-stored-keys")
 	s.g.noLong = !s.longKeys
 	if s.cache {
 		k.Probe("cache-on")
